@@ -133,7 +133,7 @@ func consumeBareInnerList(s string, f func(bareItem, param string)) (consumed, r
 		rest = rest[countLeftWhitespace(rest):]
 		if len(rest) != 0 && rest[0] == ')' {
 			rest = rest[1:]
-			break
+			return s[:len(s)-len(rest)], rest, true
 		}
 		if bareItem, rest, ok = consumeBareItem(rest); !ok {
 			return "", s, ok
@@ -148,7 +148,7 @@ func consumeBareInnerList(s string, f func(bareItem, param string)) (consumed, r
 			f(bareItem, param)
 		}
 	}
-	return s[:len(s)-len(rest)], rest, true
+	return "", s, false
 }
 
 // ParseBareInnerList parses a bare inner list from a given HTTP Structured
